@@ -250,10 +250,19 @@ def with_layout(a, layout):
         big = np.zeros((2 * a.shape[1] + 1, 3 * a.shape[0] + 2), dtype=a.dtype)
         b = big[:2 * a.shape[1]:2, 1:3 * a.shape[0]:3].T
         b[...] = a
+    elif layout == 'R':        # reversed view (negative strides on both axes)
+        b = np.ascontiguousarray(a[::-1, ::-1])[::-1, ::-1]
+    elif layout == 'RO':       # C-contiguous, non-writeable
+        b = np.ascontiguousarray(a).copy()
+        b.setflags(write=False)
     else:
         b = np.ascontiguousarray(a)
     assert b.shape == a.shape and (b == a).all() or a.dtype.kind == 'f'
     return b
+
+
+class InputMutated(Exception):
+    pass
 
 
 def arrays_of(case):
@@ -283,8 +292,17 @@ def run_impl(pz, case, transform):
                                 coords={'lat': [50.0 - 0.25 * j for j in range(x.shape[0])], 'lon': [7.5 + 2 * i for i in range(x.shape[1])]},
                                 attrs={'res': 0.25, 'crs': 'EPSG:4326', 'nodata': -1})
         return xr.DataArray(x)
-    col, polys = pz.polygonize(wrap(a), mask=None if m is None else wrap(m),
-                               connectivity=case['connectivity'], transform=tr, return_type='numpy')
+    da, dm = wrap(a), None if m is None else wrap(m)
+    before = (a.tobytes(), None if m is None else m.tobytes(), None if tr is None else repr(tr), da.copy(deep=True),
+              None if dm is None else dm.copy(deep=True))
+    kw = {} if 'column_name' not in case else {'column_name': case['column_name']}
+    col, polys = pz.polygonize(da, mask=dm, connectivity=case['connectivity'], transform=tr, return_type='numpy', **kw)
+    # inputs (data, mask, transform, coords, attrs) must be unchanged after the call
+    if a.tobytes() != before[0] or (m is not None and m.tobytes() != before[1]) or (tr is not None and repr(tr) != before[2]) \
+            or list(da.dims) != list(before[3].dims) or da.attrs != before[3].attrs or da.name != before[3].name \
+            or any(not np.array_equal(da.coords[c].values, before[3].coords[c].values) for c in before[3].coords) \
+            or (dm is not None and (dm.attrs != before[4].attrs or list(dm.dims) != list(before[4].dims))):
+        raise InputMutated('polygonize modified its inputs (raster / mask / transform / coords / attrs)')
     col = [v.item() if hasattr(v, 'item') else v for v in col]
     polys = [[[(float(p[0]), float(p[1])) for p in np.asarray(ring).reshape(-1, 2)] for ring in rings] for rings in polys]
     return col, polys
@@ -732,6 +750,8 @@ THOROUGH_COMBOS = [(d, m, t) for d in INT_DTYPES + FLOAT_DTYPES for m in (None, 
 
 EXTRA_DTYPES = ['int8', 'int16', 'uint16', 'uint64', 'bool']
 THOROUGH_COMBOS += [(d, m, t) for d in EXTRA_DTYPES for (m, t) in ((None, False), ('bool', True), ('int64', False))]
+# further mask widths (thorough only: each is a Numba compilation)
+THOROUGH_COMBOS += [('int64', m, False) for m in ('int8', 'uint16', 'uint64', 'float32', 'int32')]
 
 
 def exhaustive_cases(max_cells, max_cells_masked):
@@ -897,6 +917,103 @@ def flush(ctx, pending):
     del pending[:]
 
 
+def theme_stream(ctx, pz, pending):
+    """appended AFTER the older streams (their rng draws are unchanged): layouts reversed / non-writeable per argument, float
+    extremes through tolerance classes, call sequences and derived rasters, parameter / coordinate variants, degenerate rasters,
+    Dask-backed arguments (must be rejected with TypeError)"""
+    rng = ctx.rng
+    base = [[1, 1, 2, 2, 1], [1, 3, 3, 2, 1], [1, 1, 1, 2, 2], [4, 4, 1, 1, 2]]
+    bmask = [[1, 1, 0, 1, 1], [1, 1, 1, 1, 0], [0, 1, 1, 1, 1], [1, 1, 1, 0, 1]]
+
+    def mk(family, values, dtype='int64', mask=None, mask_dtype=None, conn=4, transform=None, **extra):
+        ny, nx = len(values), len(values[0])
+        case = dict(family=family, ny=ny, nx=nx, values=values, dtype=dtype, mask=mask, mask_dtype=mask_dtype,
+                    mask_kind='none' if mask is None else 'structured', connectivity=conn, transform=transform, **extra)
+        ctx.count(family)
+        return case
+    # 1. memory layout: reversed views and non-writeable arrays, each argument separately
+    for lv, lm in (('R', None), ('R', 'C'), ('C', 'R'), ('R', 'R'), ('F', 'R'), ('RO', None), ('RO', 'RO'), ('C', 'RO'), ('RO', 'C')):
+        check_case(ctx, pz, mk('theme/layout', base, mask=None if lm is None else bmask, mask_dtype=None if lm is None else 'bool',
+                               conn=rng.choice([4, 8]), layout=lv, mask_layout=lm or 'C'), pending)
+    # 2. float extremes: values not representable in float32, > 2**24 / 2**53, huge, tiny.  _is_close is a documented
+    #    np.isclose-style tolerance (atol 1e-8, rtol 1e-5), so "equal" is taken per tolerance class: classes are far apart
+    #    (different sign or factor >= 2), members of a class are within tolerance
+    alph = [('float64', [0.1, 0.2, 0.30000000000000004]), ('float32', [0.1, 0.2, 0.3]), ('float64', [2.0 ** 24 + 1, 2.0 ** 25 + 1, 2.0 ** 53, 2.0 ** 60]),
+            ('float64', [1e300, -1e300, 4e300]), ('float32', [3e38, -3e38, 1e38]), ('float64', [1.0, 2.0 ** -30, -3.0]),
+            ('float64', [2.0 ** 100, 2.0 ** -120, -(2.0 ** 100)]), ('float32', [16777216.0, 3.0, -16777216.0])]
+    for dtype, vals_ in alph:
+        cls = g_blobs(rng, 4, 5, len(vals_))
+        if 2.0 ** -30 in vals_ or 2.0 ** -120 in vals_:     # everything below atol = 1e-8 is one class: add a second tiny member
+            vals2 = {1: [2.0 ** -30, 2.0 ** -40, 0.0], 2: [-3.0]} if 2.0 ** -30 in vals_ else {1: [2.0 ** -120, 2.0 ** -100, -(2.0 ** -110)], 2: [-(2.0 ** 100)]}
+            grid = [[(vals_[c] if c == 0 else rng.choice(vals2[c])) for c in row] for row in cls]
+        else:
+            grid = [[vals_[c] for c in row] for row in cls]
+        if dtype == 'float32':
+            grid = [[float(np.float32(v)) for v in row] for row in grid]
+        check_case(ctx, pz, mk('theme/float-extremes', grid, dtype=dtype, conn=rng.choice([4, 8]), classes=cls), pending)
+    # 7. degenerate rasters
+    check_case(ctx, pz, mk('theme/degenerate', [['nan'] * 3] * 3, dtype='float64'), pending)
+    check_case(ctx, pz, mk('theme/degenerate', [['inf'] * 3, ['inf', '-inf', 'inf']], dtype='float64', conn=8), pending)
+    check_case(ctx, pz, mk('theme/degenerate', [[7] * 4] * 4, mask=[[0] * 4, [0, 0, 1, 0], [0] * 4, [0] * 4], mask_dtype='bool'), pending)
+    check_case(ctx, pz, mk('theme/degenerate', [[7, 8], [8, 7]], mask=[[0, 0], [0, 0]], mask_dtype='bool', conn=8), pending)
+    check_case(ctx, pz, mk('theme/degenerate', [[5, 5], [5, 5]], conn=8), pending)
+    # 5./6. parameters and coordinates: column_name (unused for numpy output) at non-default / falsy values, transform as tuple
+    for cn in ('', 'value', None):
+        check_case(ctx, pz, mk('theme/params', base, mask=bmask, mask_dtype='bool', conn=8, column_name=cn, xr='coords'), pending)
+    # 4. call sequences: repeated call, interleaved connectivity / dtype specialisations, rasters derived from processed ones
+    a = np.array(base, dtype='int64')
+    da = xr.DataArray(a, dims=['y', 'x'], coords={'y': [-1e6 * j for j in range(4)], 'x': [1e6 + 0.5 * i for i in range(5)]}, attrs={'res': (0.5, 1e6)})
+
+    def out(d, **kw):
+        c, p = pz.polygonize(d, **kw)
+        return [v.item() if hasattr(v, 'item') else v for v in c], [[np.asarray(r).tolist() for r in rings] for rings in p]
+    case = dict(family='theme/sequence', label='repeat / interleave')
+    ctx.case(case)
+    ctx.count('theme/sequence')
+    try:
+        r4 = out(da)
+        r8 = out(da, connectivity=8)
+        rf = out(da.astype('float64'))
+        if out(da) != r4 or out(da, connectivity=8) != r8 or out(da.copy(), connectivity=4) != r4 or \
+                out(da.assign_coords(x=[9.0, 8, 7, 6, 5])) != r4 or rf[1] != r4[1] or [float(v) for v in r4[0]] != rf[0] or \
+                out(xr.DataArray(a.astype('float64')).astype('int64')) != r4:
+            ctx.violation('oracle', 'polygonize is not repeatable: the same raster gave different polygons on a repeated / interleaved / '
+                          'derived call (copy, astype, assign_coords)', dict(case, values=base))
+        if da.attrs != {'res': (0.5, 1e6)} or not (da.values == a).all():
+            ctx.violation('oracle', 'polygonize modified the attrs / data of its input', dict(case, values=base))
+        # a raster sliced out of a processed one: polygons of the slice, in the slice's own pixel frame
+        sub = da.isel(y=slice(1, None), x=slice(0, 4))
+        cs, ps = out(sub)
+        sl = [row[0:4] for row in base[1:]]
+        bad = oracle_polygons(dict(values=sl, mask=None, ny=3, nx=4, connectivity=4), cs, [[[tuple(p) for p in r] for r in rings] for rings in ps])
+        if bad:
+            ctx.violation('oracle', 'raster sliced from a processed one: ' + bad, dict(family='fixed', ny=3, nx=4, values=sl, dtype='int64', mask=None,
+                                                                                     mask_dtype=None, mask_kind='none', connectivity=4, transform=None))
+    except Exception as e:
+        ctx.violation('oracle', 'call sequence raised %s: %s' % (type(e).__name__, str(e)[:200]), dict(case, values=base))
+    # 3. Dask-backed arguments are not supported: they must be rejected (TypeError), raster and mask each in turn
+    try:
+        import dask.array as dsa
+    except Exception:
+        dsa = None
+    if dsa is not None:
+        dk = xr.DataArray(dsa.from_array(a, chunks=((1, 3), (2, 2, 1))))
+        dkm = xr.DataArray(dsa.from_array(np.array(bmask, dtype=bool), chunks=(2, 5)))
+        for label, args, kw in (('dask raster', (dk,), {}), ('dask raster + dask mask', (dk,), dict(mask=dkm)),
+                                ('numpy raster + dask mask', (xr.DataArray(a),), dict(mask=dkm)),
+                                ('dask raster + numpy mask', (dk,), dict(mask=xr.DataArray(np.array(bmask, dtype=bool))))):
+            case = dict(family='theme/dask', label=label)
+            ctx.case(case)
+            ctx.count('theme/dask')
+            try:
+                pz.polygonize(*args, **kw)
+                ctx.violation('oracle', 'polygonize accepted a %s (documented: NumPy-backed only, must raise TypeError)' % label, case)
+            except TypeError:
+                pass
+            except Exception as e:
+                ctx.violation('oracle', 'polygonize raised %s instead of TypeError for a %s: %s' % (type(e).__name__, label, str(e)[:160]), case)
+
+
 def check_malformed(ctx, pz, only=None):
     """arguments outside the documented domain must be rejected (ValueError), never silently reinterpreted;
     4.0 / 8.0 compare equal to 4 / 8 and behave like them"""
@@ -1035,6 +1152,8 @@ def run(ctx):
         check_case(ctx, pz, case, pending)
         if len(pending) >= 4000:
             flush(ctx, pending)
+    flush(ctx, pending)
+    theme_stream(ctx, pz, pending)
     flush(ctx, pending)
     ctx.exhaustive = False
     ctx.notes.append('exhaustive sub-domain: every 0/1 raster of every shape with <= %d cells and every {masked,0,1} '
